@@ -314,6 +314,107 @@ func checkC17(P *Program, r *Result, tier string) {
 		r.fatal("expected at least 40 error returns in the in-memory decoders, found %d", nret)
 	}
 	versionFirstRule(P, r, A)
+	// SIGN-FIRST: a size word whose negative values are answered with an error is not used for anything
+	// else before that test — otherwise a negative size surfaces as some other failure (or none)
+	nsign := 0
+	for _, fn := range scope {
+		ei := errIndex(fn)
+		if ei < 0 || fn.Blocks == nil {
+			continue
+		}
+		for _, b := range fn.Blocks {
+			for _, in := range b.Instrs {
+				bo, ok := in.(*ssa.BinOp)
+				if !ok || bo.Op != token.LSS || !isInteger(bo.X.Type()) {
+					continue
+				}
+				if k, isC := constInt(bo.Y); !isC || k != 0 {
+					continue
+				}
+				// the true side must answer with an error
+				var iff *ssa.If
+				if refs := bo.Referrers(); refs != nil {
+					for _, rf := range *refs {
+						if i2, isIf := rf.(*ssa.If); isIf {
+							iff = i2
+						}
+					}
+				}
+				if iff == nil {
+					continue
+				}
+				tb := iff.Block().Succs[0]
+				ret, isRet := tb.Instrs[len(tb.Instrs)-1].(*ssa.Return)
+				if !isRet || !isKnownError(ret.Results[ei]) {
+					continue
+				}
+				// the tested value, seen through widening conversions
+				root := bo.X
+				for {
+					if cv, isCv := root.(*ssa.Convert); isCv && isInteger(cv.X.Type()) {
+						root = cv.X
+						continue
+					}
+					break
+				}
+				if _, isPar := root.(*ssa.Parameter); isPar {
+					continue // a caller's value: its own tests are the caller's business
+				}
+				nsign++
+				bad := ""
+				seen := map[ssa.Value]bool{}
+				var visit func(v ssa.Value)
+				visit = func(v ssa.Value) {
+					if seen[v] || v.Referrers() == nil {
+						return
+					}
+					seen[v] = true
+					for _, rf := range *v.Referrers() {
+						if rf == ssa.Instruction(bo) {
+							continue
+						}
+						if cv, isCv := rf.(*ssa.Convert); isCv {
+							visit(cv)
+							continue
+						}
+						if _, isDbg := rf.(*ssa.DebugRef); isDbg {
+							continue
+						}
+						if b2, isBo := rf.(*ssa.BinOp); isBo && b2.Op == token.LSS {
+							if k, isC := constInt(b2.Y); isC && k == 0 {
+								continue // another sign test of the same word
+							}
+						}
+						at := rf
+						if ph, isPhi := rf.(*ssa.Phi); isPhi {
+							// used on an incoming edge
+							okAll := true
+							for i, e := range ph.Edges {
+								if e == v {
+									pb := ph.Block().Preds[i]
+									if !guardedBy(pb.Instrs[len(pb.Instrs)-1], bo, false) {
+										okAll = false
+									}
+								}
+							}
+							if !okAll {
+								bad = "used at " + P.pos(instrPos(ph)) + " before its sign is tested"
+							}
+							continue
+						}
+						if !guardedBy(at, bo, false) {
+							bad = "used at " + P.pos(instrPos(at)) + " before its sign is tested"
+						}
+					}
+				}
+				visit(root)
+				r.add("SIGN-FIRST", shortName(fn), "size", "a wire size is put to use only after its sign test (a negative size is reported as NEGATIVE_SIZE, not as something else)", P.pos(instrPos(bo)), bad == "", bad)
+			}
+		}
+	}
+	if nsign < 4 {
+		r.fatal("expected at least 4 sign tests of wire sizes in the in-memory decoders, found %d", nsign)
+	}
 	// the wrapper itself keeps the source error reachable
 	wrapHelperRule(P, r, relThrift)
 	// WRAP-SOURCE
